@@ -8,6 +8,21 @@ from __future__ import annotations
 import re
 from fractions import Fraction as F
 
+# The five standard channel layouts (channel -> lane), written out here so that the reference does not take them from the
+# library: a wrong entry in reamber's own tables must show up as a difference.
+LAYOUTS = {
+    "BMS": {"11": 0, "12": 1, "13": 2, "14": 3, "15": 4, "16": 5, "17": 6, "21": 7, "22": 8, "23": 9, "24": 10, "25": 11, "26": 12, "27": 13},
+    "BME": {"16": 0, "11": 1, "12": 2, "13": 3, "14": 4, "15": 5, "18": 6, "19": 7, "21": 8, "22": 9, "23": 10, "24": 11, "25": 12, "28": 13, "29": 14, "26": 15},
+    "PMS": {"11": 0, "12": 1, "13": 2, "14": 3, "15": 4, "22": 5, "23": 6, "24": 7, "25": 8},
+    "PMS_BME": {"11": 0, "12": 1, "13": 2, "14": 3, "15": 4, "18": 5, "19": 6, "16": 7, "17": 8, "21": 9, "22": 10, "23": 11, "24": 12, "25": 13, "28": 14, "29": 15, "26": 16, "27": 17},
+    "PMS_5B": {"13": 0, "14": 1, "15": 2, "22": 3, "23": 4},
+}
+
+
+def ref_layout(name):
+    return {ch.encode(): lane for ch, lane in LAYOUTS[name].items()}
+
+
 NOTE_LINE = re.compile(rb"^#(\d{3})([0-9A-Za-z]{2}):(.*)$")
 
 
